@@ -76,15 +76,15 @@ func VerifyFunction(p *Program, name string, opt Options) FnReport {
 	sort.Strings(rep.Used)
 	rep.Notes = fc.Notes
 	// binding checks: every loop spec and call assertion must have been used
+	// a loop contract whose loop is gone is not an error by itself: the
+	// function's remaining obligations decide (they are proved without it)
 	for n := range cs.Loops {
 		if n < 1 || n > len(fc.loopList) {
-			rep.Err = fmt.Sprintf("bind: contract names loop %d but the function has %d loops", n, len(fc.loopList))
-			return rep
+			rep.Notes = append(rep.Notes, fmt.Sprintf("contract names loop %d but the function has %d loops: loop contract ignored", n, len(fc.loopList)))
 		}
 	}
 	for _, ul := range fc.unboundLoops {
-		rep.Err = fmt.Sprintf("bind: no loop carries the variable %q named by a loop contract", ul)
-		return rep
+		rep.Notes = append(rep.Notes, fmt.Sprintf("no loop carries the variable %q named by a loop contract: loop contract ignored", ul))
 	}
 	for _, ca := range cs.CallAsserts {
 		if !fc.usedCallAssert[ca.Clause.Label+ca.Clause.Text] {
